@@ -31,6 +31,9 @@ pub mod zobrist;
 pub mod bridge;
 pub mod checks;
 pub mod report;
+pub mod sa;
+pub mod sa_checks;
+pub mod c09;
 pub mod sc;
 pub mod workload;
 pub mod referee;
